@@ -23,6 +23,9 @@ const (
 	fCancelWrite = "C18-cancelled-subscribe-closes-shared-conn"
 	// The client closes a connection as "empty" while a new subscriber is being registered on it.
 	fCloseRace = "C18-subscribe-races-connection-close"
+	// sendPing stores lastPingSentAt after the ping was written; a pong that is processed before that
+	// store looks older than the ping, and the next tick closes a perfectly healthy connection.
+	fPingRace = "C18-ping-timestamp-race-closes-healthy-conn"
 )
 
 type viol struct {
@@ -58,6 +61,17 @@ func (w *world) dropTouched(k int) bool {
 func (w *world) killed(k int) bool {
 	for _, uc := range w.conns {
 		if uc.tuple == k && uc.acked && uc.abrupt {
+			return true
+		}
+	}
+	return false
+}
+
+// otherFinished reports whether some other subscription of tuple k has ended (terminal received or
+// cancelled), i.e. whether the client had an occasion to regard a connection of that tuple as unused.
+func (w *world) otherFinished(k, i int) bool {
+	for j, st := range w.subs {
+		if j != i && st.started && w.c.Subs[j].Tuple == k && (st.cancelIssued || st.terminalAt() >= 0) {
 			return true
 		}
 	}
@@ -107,11 +121,11 @@ func judge(o *outcome) []viol {
 		// --- Subscribe result
 		if st.err != nil && !st.cancelIssued && !st.dropInSub && !lenient {
 			switch {
-			case errors.Is(st.err, context.Canceled) && len(st.inFlightCancel) > 0 && !sse:
-				add(fDialCtx, "sub %d: Subscribe failed with %q although its own context is alive; sub(s) %v with the same option tuple were cancelled while this call was in flight", i, st.err, st.inFlightCancel)
-			case st.err == common.ErrConnectionClosed && !sse && !(w.killed(k) && len(w.earlyCancelled(k, i)) > 0): //nolint:errorlint
+			case errors.Is(st.err, context.Canceled) && len(w.earlyCancelled(k, i)) > 0 && !sse:
+				add(fDialCtx, "sub %d: Subscribe failed with %q although its own context is alive; sub(s) %v with the same option tuple were cancelled before their own Subscribe call had returned (one of them was dialling for everybody)", i, st.err, w.earlyCancelled(k, i))
+			case st.err == common.ErrConnectionClosed && !sse && w.otherFinished(k, i) && !(w.killed(k) && len(w.earlyCancelled(k, i)) > 0): //nolint:errorlint
 				add(fCloseRace, "sub %d: Subscribe failed with %q: the pooled connection was closed by the client itself between lookup and registration", i, st.err)
-			case len(w.earlyCancelled(k, i)) > 0:
+			case len(w.earlyCancelled(k, i)) > 0 && w.killed(k):
 				add(fCancelWrite, "sub %d: Subscribe failed with %q; sub(s) %v of the same tuple were cancelled while writing their subscribe to the shared connection", i, st.err, w.earlyCancelled(k, i))
 			default:
 				add("", "sub %d: Subscribe failed with %q although it was not cancelled and its upstream did not fail", i, st.err)
@@ -176,12 +190,17 @@ func judge(o *outcome) []viol {
 
 		// --- connection errors need a reason at the upstream
 		if connErr != nil && !st.cancelIssued {
-			legit := st.dropped || lenient || (w.dropTouched(k) && (st.seen == 0 || (st.conn != nil && st.conn.dropped)))
+			legit := st.dropped || lenient || st.silenced || (w.dropTouched(k) && (st.seen == 0 || (st.conn != nil && st.conn.dropped)))
 			if !legit {
 				switch {
+				case connErr.closedByClient && !sse && c.Ping != nil && st.conn != nil && st.conn.pings > 0 && st.conn.pongs >= st.conn.pings-1:
+					add(fPingRace, "sub %d was ended with %q by the client's pong timeout although the upstream answered the pings on its connection (pings %d, pongs %d, slowest pong %v, ping interval %dms)",
+						i, connErr.Err, st.conn.pings, st.conn.pongs, st.conn.pongLat, c.Ping.IntervalMs)
 				case connErr.closedByClient && !sse:
-					add(fCloseRace, "sub %d was ended with %q: the client closed its connection as unused while this subscription was registered on it (upstream did not drop it)", i, connErr.Err)
-				case len(w.earlyCancelled(k, i)) > 0:
+					// Not attributed to the recorded lookup/registration race: that one fails Subscribe, it never
+					// ends a registered subscription (the window for that is a few instructions wide).
+					add("", "sub %d was ended with %q: the client itself closed the connection (as unused / idle) while this subscription was registered on it; the upstream did not drop it", i, connErr.Err)
+				case len(w.earlyCancelled(k, i)) > 0 && w.killed(k):
 					add(fCancelWrite, "sub %d was ended with connection error %q; the upstream did not drop its connection, but sub(s) %v of the same tuple were cancelled before their Subscribe returned", i, connErr.Err, w.earlyCancelled(k, i))
 				default:
 					add("", "sub %d was ended with connection error %q although the upstream neither dropped its connection nor sent a terminal for it", i, connErr.Err)
